@@ -22,11 +22,13 @@
 (*    on the real key store / DKG store and compared step by step.         *)
 (*                                                                         *)
 (* Deliberate deviations from an ideal design are named:                   *)
-(*  DkgDbPerm   = 0660: dkg.NewDKGStore opens the database that holds the  *)
-(*                KeyShare of every finished epoch group-readable (F11).   *)
 (*  Justification: a dealer answers a public complaint with the plain      *)
 (*                sub-share f_d(r) of the complainer (protocol design;     *)
 (*                neither a long-term key nor a distributed share).        *)
+(* Repaired (F11): dkg.NewDKGStore used to open the database that holds    *)
+(*                the KeyShare of every finished epoch with 0660; it now   *)
+(*                opens it with DkgDbPerm = 0600 and chmods an existing    *)
+(*                file to that permission.                                 *)
 (***************************************************************************)
 EXTENDS Naturals, Sequences, FiniteSets, TLC
 
@@ -34,7 +36,7 @@ CONSTANTS Nodes,        \* modelled nodes (ids > 0)
           Peers,        \* ids that may appear in group material (superset of Nodes)
           MaxEpoch,     \* epochs 1..MaxEpoch
           Umasks,       \* process umasks explored (decimal: 18 = 0o022, 2 = 0o002, 63 = 0o077)
-          DkgDbPerm,    \* internal/dkg/store.go BoltStoreOpenPerm (432 = 0o660 in the code)
+          DkgDbPerm,    \* internal/dkg/store.go BoltStoreOpenPerm (384 = 0o600 in the code)
           ChainDbPerm,  \* internal/chain/boltdb/store.go BoltStoreOpenPerm (432 = 0o660)
           PreModes      \* modes an operator may have given a pre-existing file
 
@@ -206,7 +208,8 @@ RunProgram(F, prog, um) == IF prog = <<>> THEN F ELSE RunProgram(ApplyPrim(F, He
 (* the file programs of the high-level steps (also used by the trace specification) *)
 ProgGenerateKey(n) == SecureSave("key.private", FileContent(n, "key.private", 0)) \o PlainSave("key.public", FileContent(n, "key.public", 0))
                                                                  \* key/store.go SaveKeyPair
-ProgStartDaemon(n, e) == BoltOpen("dkg.db", DkgDbPerm)           \* core/drand_daemon.go init -> dkg.NewDKGStore
+ProgStartDaemon(n, e) == BoltOpen("dkg.db", DkgDbPerm)           \* core/drand_daemon.go init -> dkg.NewDKGStore: bolt.Open(perm)
+                         \o <<Prim("chmod", "dkg.db", DkgDbPerm, {})>>                 \* ... then os.Chmod (a database left by an earlier version)
                          \o (IF e > 0 THEN BoltPut("dkg.db", FileContent(n, "dkg.db", e))      \* migration of a v1 group+share into the DKG database
                                             \o BoltOpen("chain.db", ChainDbPerm) ELSE <<>>)
 ProgPropose(n, e) == BoltPut("dkg.db", FileContent(n, "dkg.db", e))   \* SaveCurrent: the new current record has no KeyShare, the finished one stays
@@ -322,7 +325,7 @@ Log(n) == /\ node[n].keyed /\ Idle(n)
           /\ UNCHANGED <<node, fs, io, umask>>
 
 Next == \E n \in Nodes :
-          \/ \E k \in {"key.private", "share"}, m \in PreModes : PreCreate(n, k, m)
+          \/ \E k \in {"key.private", "share", "dkg.db"}, m \in PreModes : PreCreate(n, k, m)
           \/ FsStep(n) \/ GenerateKey(n) \/ StartDaemon(n) \/ StopDaemon(n)
           \/ Propose(n)
           \/ \E key \in GossipKinds : Answer(n, key)
